@@ -672,3 +672,70 @@ def rule_ref_tables(ctx):
                 ctx.violated("REFTABLE", key, f.where(r[5]), "`%s` is allocated with MAX_REF (65535) entries and indexed by a variable: the highest legal reference number 65535 is one past the end" % v)
     ctx.floor("REFTABLE", 2, n, "(tables sized by MAX_REF and indexed by a variable)")
     return n
+
+
+def rule_unbounded_name_reads(ctx):
+    """NAMEBUF (C20, C08): the name and the class of a Vgroup have no length limit (Vsetname / Vsetclass accept any length), and
+    Vgetname / Vgetclass copy them into the caller's buffer with strcpy.  Inside the library every such call whose destination
+    is a fixed-size array must be preceded, in the same routine, by the matching length query (Vgetnamelen / Vgetclassnamelen):
+    without it any file that contains a Vgroup with a longer name or class overruns the array when the interface merely opens
+    the file.  (Destinations that are pointers are allocated from the queried length or belong to the caller.)"""
+    import re
+    from .facts import kind, strip, render
+    prog = ctx.prog
+    n = 0
+    NEED = {"Vgetclass": "Vgetclassnamelen", "Vgetname": "Vgetnamelen"}
+    occ = {}
+    for f in prog.lib_funcs():
+        names = {c[1] for _b, _i, _s, c in f.calls()}
+        for _b, _i, s, c in f.calls():
+            if c[1] not in NEED or len(c[3]) < 2:
+                continue
+            a = strip(c[3][1])
+            t = a[3] if kind(a) == "var" and len(a) > 3 else ""
+            m = re.search(r"\[(\d+)\]$", t or "")
+            if not m:
+                continue
+            n += 1
+            key = "NAMEBUF:%s:%s" % (f.name, a[1])
+            occ[key] = occ.get(key, 0) + 1
+            if occ[key] > 1:
+                key += "#%d" % occ[key]
+            line = s.get("l", f.line)
+            if NEED[c[1]] in names:
+                ctx.holds("NAMEBUF", key, f.where(line), "%s() is queried in the same routine before %s copies into `%s` (%s bytes)" % (NEED[c[1]], c[1], a[1], m.group(1)), nontrivial=True)
+            else:
+                ctx.violated("NAMEBUF", key, f.where(line), "%s() copies a Vgroup's %s, which has no length limit, into `%s` (%s bytes) and the routine never asks for its length: a longer one overruns the array" %
+                             (c[1], "class" if "class" in c[1] else "name", a[1], m.group(1)))
+    # the helper idiom: a routine that queries the length, compares it with a constant K and only then copies into its pointer
+    # parameter is a bounded reader of K bytes; the arrays its callers hand it must hold K bytes
+    from .facts import is_int, int_val, walk
+    wrappers = {}
+    for f in prog.lib_funcs():
+        params = [q[0] for q in f.params]
+        calls = list(f.calls())
+        for _b, _i, _s, c in calls:
+            if c[1] in NEED and len(c[3]) > 1 and kind(strip(c[3][1])) == "var" and strip(c[3][1])[1] in params and any(k[1] == NEED[c[1]] for _b2, _i2, _s2, k in calls):
+                ks = [int_val(x[3]) for _b3, _i3, _s3, x in f.nodes(True) if x[0] == "bin" and x[1] in (">=", ">") and is_int(x[3]) and int_val(x[3]) > 8]
+                if ks:
+                    wrappers[f.name] = (min(ks), params.index(strip(c[3][1])[1]))
+    for f in prog.lib_funcs():
+        for _b, _i, s, c in f.calls():
+            if c[1] not in wrappers or len(c[3]) <= wrappers[c[1]][1]:
+                continue
+            a = strip(c[3][wrappers[c[1]][1]])
+            t = a[3] if kind(a) == "var" and len(a) > 3 else ""
+            m = re.search(r"\[(\d+)\]$", t or "")
+            if not m:
+                continue
+            n += 1
+            key = "NAMEBUF:%s:%s" % (f.name, a[1])
+            occ[key] = occ.get(key, 0) + 1
+            if occ[key] > 1:
+                key += "#%d" % occ[key]
+            if int(m.group(1)) >= wrappers[c[1]][0]:
+                ctx.holds("NAMEBUF", key, f.where(s.get("l", f.line)), "`%s` (%s bytes) is filled by %s(), which copies only after comparing the queried length with %d" % (a[1], m.group(1), c[1], wrappers[c[1]][0]), nontrivial=True)
+            else:
+                ctx.violated("NAMEBUF", key, f.where(s.get("l", f.line)), "%s() admits %d bytes but `%s` holds %s" % (c[1], wrappers[c[1]][0], a[1], m.group(1)))
+    ctx.floor("NAMEBUF", 5, n, "(Vgroup name/class reads into fixed arrays inside the library)")
+    return n
